@@ -67,6 +67,14 @@ var RespShapes = []RespShape{
 	{`{"code":500,"message":"err"}`, ``, "none"},
 }
 
+// ModOnlyShapes: answers only a module service can give (a message with them fails stateless validation):
+// a non-success result with a malformed output - a malformed output all the same - and a success
+// result without any output - no output, hence no malformed output
+var ModOnlyShapes = []RespShape{
+	{`{"code":500,"message":"err"}`, `{}`, "invalid"},
+	{`{"code":200,"message":""}`, ``, "none"},
+}
+
 // ---------------------------------------------------------------------------------------------
 // focus: per-property generator bias
 
@@ -122,6 +130,7 @@ func FocusFor(prop string, tier string) Focus {
 		}
 	case "C04":
 		mul(2, KCall, KRespond)
+		f.ModSvcPct = 25
 	case "C05":
 		f.MultiPct = 15
 		f.WrongSign = 45
@@ -259,8 +268,12 @@ func GenConfig(t *rapid.T, f Focus) Config {
 		dep := c.MinDepositFor(base) + rapid.SampledFrom([]int64{0, 1, 1000}).Draw(t, "moddepx")
 		n := rapid.IntRange(1, 3).Draw(t, "modscript")
 		var script []ModOutcome
+		shapes := RespShapes
+		if f.Prop == "C04" || f.Prop == "C20" {
+			shapes = append(append([]RespShape{}, RespShapes...), ModOnlyShapes...)
+		}
 		for i := 0; i < n; i++ {
-			sh := rapid.SampledFrom(RespShapes).Draw(t, "modout")
+			sh := rapid.SampledFrom(shapes).Draw(t, "modout")
 			script = append(script, ModOutcome{Result: sh.Result, Output: sh.Output, Class: sh.Class})
 		}
 		c.ModSvc = &ModSvcCfg{
